@@ -1,0 +1,23 @@
+//go:build verif
+
+package statefulset
+
+import (
+	"k8s.io/client-go/util/workqueue"
+)
+
+// This file is compiled only with the "verif" build tag. It exposes the
+// unexported entry points of the controller to the external runtime-monitoring
+// harness (it adds no behaviour and changes no existing line).
+
+// VerifSync runs one reconcile of key exactly as a worker would.
+func (ssc *StatefulSetController) VerifSync(key string) error { return ssc.sync(key) }
+
+// VerifProcessNextWorkItem runs one worker step (queue Get, sync, requeue bookkeeping).
+func (ssc *StatefulSetController) VerifProcessNextWorkItem() bool { return ssc.processNextWorkItem() }
+
+// VerifQueue returns the controller's work queue.
+func (ssc *StatefulSetController) VerifQueue() workqueue.RateLimitingInterface { return ssc.queue }
+
+// VerifSetQueue replaces the controller's work queue (e.g. by one running on virtual time).
+func (ssc *StatefulSetController) VerifSetQueue(q workqueue.RateLimitingInterface) { ssc.queue = q }
